@@ -1,9 +1,88 @@
 import PyamgV.Driver.Util
-/-! Driver ops for property C04 (line protocol). Op names are prefixed `c04_`. -/
+import PyamgV.Model.C04Model
+import PyamgV.Proofs.C04Loop
+/-! Driver ops for property C04 (line protocol). Op names are prefixed `c04_`.
+
+* `c04_coarsen <max_levels> <max_coarse> <sizes>`: the coarsening loop (`Coarsen.build` through
+  `C04.runTrace`) on the observed step outcomes; reply `sizes;reason;calls` or `error`
+* `c04_levelize <kinds> <max_levels> <max_coarse>`: `levelize` applied left to right; kinds are
+  `plain`, `ptuple`, `list:<len>`, `plist:<len>`; reply `max_levels max_coarse len,len,...`
+* `c04_ctor <rs|air|sa|rn|pw> <kinds> <max_levels> <max_coarse> <rows> <blocksizes>`: the loop of one
+  constructor: effective limits (`levelize` left to right), the size its loop looks at (`nodeSize`),
+  then `runTrace`; reply `max_levels' max_coarse' sizes;reason;calls`
+* `c04_size <blockwise 0/1> <rows> <blocksize>`
+* `c04_check <sym> <tol> <A0> <P0> <R0> <A1> ... <Ak>`: the proved checker on real levels; matrices are
+  `rows:cols:entries` (row-major, `re|im` or a rational); reply `ok` or `fail:<level>:<clause>` -/
 namespace PyamgV.Drv.C04
-open PyamgV PyamgV.Drv
+open PyamgV PyamgV.Drv PyamgV.C04
+
+def parseKind (s : String) : Option OptKind :=
+  match s.splitOn ":" with
+  | ["plain"] => some .plain
+  | ["ptuple"] => some .predefTuple
+  | ["list", n] => n.toNat?.map .listPlain
+  | ["plist", n] => n.toNat?.map .listPredef
+  | _ => none
+
+def parseMat (s : String) : Option Mat :=
+  match s.splitOn ":" with
+  | [r, c, d] => do
+    let r ← r.toNat?
+    let c ← c.toNat?
+    some ⟨r, c, parseCRats d⟩
+  | _ => none
+
+def parseSym (s : String) : Option Sym :=
+  if s = "herm" then some .herm else if s = "symm" then some .symm else if s = "none" then some .none else none
+
+/-- `A0 P0 R0 A1 P1 R1 ... Ak` -/
+def parseLevels : List String → Option (List Lvl)
+  | [a] => do let A ← parseMat a; some [⟨A, ⟨0, 0, #[]⟩, ⟨0, 0, #[]⟩⟩]
+  | a :: p :: r :: rest => do
+    let A ← parseMat a
+    let P ← parseMat p
+    let R ← parseMat r
+    let tl ← parseLevels rest
+    some (⟨A, P, R⟩ :: tl)
+  | _ => none
 
 def handle : List String → Option String
+  | ["c04_coarsen", ml, mc, sizes] =>
+    match ml.toNat?, mc.toNat? with
+    | some ml, some mc =>
+      some <| match runTrace ml mc (parseNats sizes) with
+        | none => "error"
+        | some (tr, stop, calls) => showNats tr.toArray ++ ";" ++ stopName stop ++ ";" ++ toString calls
+    | _, _ => some "error"
+  | ["c04_levelize", kinds, ml, mc] =>
+    match ml.toNat?, mc.toNat?, (listOf kinds).mapM parseKind with
+    | some ml, some mc, some ks =>
+      let (ml', mc', lens) := ks.foldl (fun (acc : Nat × Nat × List Nat) k =>
+        let (a, b, len) := levelize k acc.1 acc.2.1
+        (a, b, acc.2.2 ++ [len])) (ml, mc, [])
+      some s!"{ml'} {mc'} {showNats lens.toArray}"
+    | _, _, _ => some "error"
+  | ["c04_ctor", c, kinds, ml, mc, rows, bs] =>
+    let c? : Option Ctor := match c with
+      | "rs" => some .rs | "air" => some .air | "sa" => some .sa | "rn" => some .rn | "pw" => some .pw
+      | _ => none
+    match c?, ml.toNat?, mc.toNat?, (listOf kinds).mapM parseKind with
+    | some c, some ml, some mc, some ks =>
+      let lim := ctorLimits c ks ml mc
+      some <| match ctorTrace c ks ml mc (parseNats rows) (parseNats bs) with
+        | none => "error"
+        | some (tr, stop, calls) =>
+          s!"{lim.1} {lim.2} " ++ showNats tr.toArray ++ ";" ++ stopName stop ++ ";" ++ toString calls
+    | _, _, _, _ => some "error"
+  | ["c04_size", bw, rows, bs] =>
+    some <| toString (nodeSize (bw = "1") (nat rows) (nat bs))
+  | "c04_check" :: sym :: tol :: mats =>
+    match parseSym sym, parseRat? tol, parseLevels mats with
+    | some sym, some tol, some ls =>
+      some <| if checkHier sym tol ls then "ok" else
+        let w := whyFail sym tol 0 ls
+        if w = "ok" then "fail:?:checker-and-diagnostic-disagree" else w
+    | _, _, _ => some "error"
   | _ => none
 
 end PyamgV.Drv.C04
